@@ -45,6 +45,9 @@ class HarnessBug(HarnessSignal):
 
 
 CASE_PRELUDE = None     # see run_scenario
+CASE_COMPANION = None   # see Companion
+ACTIVE_COMPANION = None  # the interleaved companion of the execution in progress
+ON_BLOCKED = None        # set by the runner: shortens the real-time watchdog for one execution
 BUG_LOG = []       # every HarnessBug raised in this process (checked by the runner after each case)
 
 _BUG_TYPES = (TypeError, AttributeError, KeyError, IndexError, NameError, AssertionError, ZeroDivisionError)
@@ -470,6 +473,11 @@ class SimSocket(object):
         data = self._st.sim.sock_recv(self._st, nbytes)
         n = len(data)
         buf[:n] = data
+        c = ACTIVE_COMPANION
+        if c is not None and self._st.sim is not c.sim and n:
+            # the thread of the connection under test is preempted right after its read returned (recv
+            # releases the GIL): the other connection's thread runs until its next event
+            c.step()
         return n
 
     def recv(self, nbytes):
@@ -1083,6 +1091,134 @@ def make_ws(scenario):
     return ws
 
 
+class Companion(object):
+    """A SECOND live connection in the same process (its own WebSocket object, its own simulated network and clock),
+    used by a different activity than the connection under test.  Two threads each driving one connection is a
+    schedule in which their steps interleave; here the interleaving is produced on one thread:
+
+    * mode "interleaved": whenever the connection under test hands an event to its application, the companion's
+      thread gets to run until ITS next event (one selector wait, one read of a scripted frame of varying size,
+      one parse).  The connection under test then resumes in the middle of whatever read it was working through.
+    * mode "blocked_in_send": the companion's application is inside send_binary(), blocked in sendall() because its
+      peer stopped reading (holding whatever locks a send holds), for the WHOLE life of the connection under test.
+
+    Connections are independent: nothing of this may show in the connection under test."""
+
+    SIZES = (40, 3000, 200, 70000, 900, 1, 66000, 130)
+    _SCRIPTS = {}      # the companion's server script, built once per process
+
+    def __init__(self, spec, scenario):
+        from . import wire
+        self.spec = spec
+        self.mode = spec.get("mode", "interleaved")
+        self.steps = 0
+        self.done = False
+        self.stepping = False
+        nframes = spec.get("frames", 400)
+        script = self._SCRIPTS.get(nframes)
+        if script is None:
+            script = [["wait_request"], ["stream", [["reply", None]], "whole", 0.0]]
+            for i in range(nframes):
+                n = self.SIZES[i % len(self.SIZES)]
+                body = (b"companion-%04d " % i) * (n // 15 + 1)
+                script.append(["stream", [["bytes", wire.build_frame(wire.BINARY if i % 3 else wire.TEXT, body[:n])]],
+                               "whole", 0.0])
+            script.append(["eof", 0.0])
+            self._SCRIPTS[nframes] = script
+        self.scn = {"url": "ws://companion.test/", "attempts": [{"script": script}], "ws_opts": {},
+                    "connect_opts": {"ping_rate": 0, "poll": 1000.0}}
+        self.sim = Sim(self.scn)
+        self.ws = None
+        self.gen = None
+
+    def _enter(self):
+        global CURRENT
+        self._prev = CURRENT
+        CURRENT = self.sim
+
+    def _leave(self):
+        global CURRENT
+        CURRENT = self._prev
+
+    def start(self):
+        """Connect the companion and run it up to Ready."""
+        self._enter()
+        try:
+            self.ws = make_ws(self.scn)
+            self.gen = self.ws.connect(**self.scn["connect_opts"])
+            for _ in range(8):
+                ev = next(self.gen)
+                if getattr(ev, "name", "") == "ready":
+                    return
+            raise HarnessBug("companion connection did not get Ready")
+        except StopIteration:
+            raise HarnessBug("companion connection ended before Ready")
+        finally:
+            self._leave()
+
+    def step(self):
+        """Let the companion's thread run until its next event."""
+        if self.done or self.gen is None or self.stepping:
+            return
+        self._enter()
+        self.stepping = True
+        try:
+            next(self.gen)
+            self.steps += 1
+        except StopIteration:
+            self.done = True
+        except HarnessSignal:
+            raise
+        except Exception:       # the companion is not the connection under test
+            self.done = True
+        finally:
+            self.stepping = False
+            self._leave()
+
+    def run_inside_send(self, body):
+        """Run ``body()`` while the companion's application is blocked inside send_binary()."""
+        box = {}
+
+        def hook(sim, st, data):
+            if "ran" not in box:
+                box["ran"] = True
+                self._leave()
+                try:
+                    if ON_BLOCKED is not None:
+                        ON_BLOCKED()      # a lock shared between connections would now block for ever: short watchdog
+                    box["result"] = body()
+                finally:
+                    self._enter()
+            sim.log_op("send", st, data)
+            st.note_write(data)
+        self.sim.scn["_send_hook"] = hook
+        self._enter()
+        try:
+            try:
+                self.ws.send_binary(b"a large upload that the peer does not read " * 200)
+            except HarnessSignal:
+                raise
+            except Exception:
+                pass
+        finally:
+            self.sim.scn.pop("_send_hook", None)
+            self._leave()
+        if "ran" not in box:
+            box["result"] = body()      # the send never reached the socket: run without it
+        return box["result"]
+
+    def close(self):
+        gen, self.gen = self.gen, None
+        if gen is not None:
+            self._enter()
+            try:
+                gen.close()
+            except BaseException:
+                pass
+            finally:
+                self._leave()
+
+
 def run_scenario(scenario, on_event=None):
     """Run one connect() of the real client against the scenario; returns a Trace."""
     global CURRENT
@@ -1094,7 +1230,8 @@ def run_scenario(scenario, on_event=None):
         # an EARLIER connection made in this process, which ended the way the prelude says: on the same
         # WebSocket object (then reused for the run proper) or on another one.  It has its own simulation;
         # whatever it leaves behind in the client is the only thing the run proper can see of it.
-        pre = dict(scenario, attempts=prelude["attempts"], reactions=prelude.get("reactions", []), prelude=None)
+        pre = dict(scenario, attempts=prelude["attempts"], reactions=prelude.get("reactions", []), prelude=None,
+                   companion=None)
         for k in ("masks", "_send_hook", "_idle_hook", "horizon"):
             pre.pop(k, None)
         pre_tr = run_scenario(pre)
@@ -1104,17 +1241,35 @@ def run_scenario(scenario, on_event=None):
         del pre_tr
     if ON_RUN is not None:
         ON_RUN()
+    cspec = scenario["companion"] if "companion" in scenario else CASE_COMPANION
+    companion = None
+    if cspec:
+        companion = Companion(cspec, scenario)
+        companion.start()
     sim = Sim(scenario)
-    CURRENT = sim
     tr = Trace()
     tr.sim = sim
     tr.log_start = 0
+    tr.companion = companion
+
+    def body():
+        global CURRENT
+        CURRENT = sim
+        try:
+            w = ws if ws is not None else make_ws(scenario)
+            tr.ws = w
+            _drive(w, scenario, sim, tr, on_event, None,
+                   companion if (companion is not None and companion.mode == "interleaved") else None)
+        finally:
+            CURRENT = None
     try:
-        if ws is None:
-            ws = make_ws(scenario)
-        tr.ws = ws
-        _drive(ws, scenario, sim, tr, on_event)
+        if companion is not None and companion.mode == "blocked_in_send":
+            companion.run_inside_send(body)
+        else:
+            body()
     finally:
+        if companion is not None:
+            companion.close()
         CURRENT = None
     tr.log_end = len(sim.log)
     return tr
@@ -1128,9 +1283,32 @@ def run_chain(scenario, count=None, on_event=None):
     install()
     if ON_RUN is not None:
         ON_RUN()
+    cspec = scenario["companion"] if "companion" in scenario else CASE_COMPANION
+    companion = None
+    if cspec:
+        companion = Companion(cspec, scenario)
+        companion.start()
     sim = Sim(scenario)
-    CURRENT = sim
     traces = []
+    if companion is not None and companion.mode == "blocked_in_send":
+        try:
+            companion.run_inside_send(lambda: _run_chain_body(scenario, count, on_event, sim, traces, None))
+        finally:
+            companion.close()
+            CURRENT = None
+        return traces
+    try:
+        _run_chain_body(scenario, count, on_event, sim, traces, companion)
+    finally:
+        if companion is not None:
+            companion.close()
+        CURRENT = None
+    return traces
+
+
+def _run_chain_body(scenario, count, on_event, sim, traces, companion):
+    global CURRENT
+    CURRENT = sim
     try:
         ws = make_ws(scenario)
         for k in range(count or len(scenario["attempts"])):
@@ -1159,7 +1337,7 @@ def run_chain(scenario, count=None, on_event=None):
                     prev.held = None
                     gc_collect_young()
                 release = (att["release_held"], drop)
-            _drive(ws, scn_k, sim, tr, on_event, release)
+            _drive(ws, scn_k, sim, tr, on_event, release, companion)
             tr.log_end = len(sim.log)
             traces.append(tr)
     finally:
@@ -1167,11 +1345,25 @@ def run_chain(scenario, count=None, on_event=None):
     return traces
 
 
+def CURRENT_set(sim):
+    global CURRENT
+    CURRENT = sim
+
+
 def gc_collect_young():
     pass    # reference counting finalises the dropped generator at once; kept as a hook
 
 
-def _drive(ws, scenario, sim, tr, on_event, release=None):
+def _drive(ws, scenario, sim, tr, on_event, release=None, companion=None):
+    global ACTIVE_COMPANION
+    ACTIVE_COMPANION = companion
+    try:
+        return _drive_inner(ws, scenario, sim, tr, on_event, release, companion)
+    finally:
+        ACTIVE_COMPANION = None
+
+
+def _drive_inner(ws, scenario, sim, tr, on_event, release=None, companion=None):
     copts = dict(scenario.get("connect_opts", {}))
     rules = scenario.get("reactions", [])
     fired = [False] * len(rules)
@@ -1219,6 +1411,10 @@ def _drive(ws, scenario, sim, tr, on_event, release=None):
             if release is not None and release[0] == idx:
                 release[1]()
                 release = None
+            if companion is not None:
+                # the other connection's thread runs while this one's application has the event
+                companion.step()
+                CURRENT_set(sim)
             if on_event is not None:
                 on_event(ws, ev, tr)
             for ri, rule in enumerate(rules):
